@@ -21,6 +21,7 @@ RULE = ("W-enum: one case per (name, naming scheme, cache state); W-gen: one cas
 ANCHORS = ["decaylanguage.utils.particleutils:charge_conjugate_name", "decaylanguage.decay.decay:DaughtersDict.charge_conjugate",
            "decaylanguage.decay.decay:DecayMode.charge_conjugate", "decaylanguage.dec.dec:ChargeConjugateReplacement.particle"]
 WORKERS = {"quick": 4, "thorough": 16}
+WTESTS = {"groups": ['conj'], "tests": ['tests/decay', 'tests/utils', 'tests/dec/test_dec.py']}
 REQUIRED = {"kind:has-antiparticle": 300, "kind:self-conjugate": 50, "kind:in-table-no-conjugate": 10, "kind:unknown-label": 50,
             "pdg-route": 500, "multiplicity>=4": 20, "metadata>=2-user-keys": 20, "cross-layer-file": 10, "cache-cold": 1, "cache-evicting": 1,
             "C04.name.matches_table_oracle": 1000, "C04.daughters.each_particle_with_multiplicity": 100, "C04.mode.bf_and_metadata_kept": 100}
